@@ -15,28 +15,34 @@ Theorem C04_any_length_form :
   = Ok (mkHdr t (ident_octets t + nlen lo) len).
 Proof. exact header_any_length. Qed.
 
-(* Whole messages.  [penc_msg lf tb explicit] (Msg/Peer.v) is a peer's encoder: [lf] chooses the length
-   octets of every TLV node from the node's content (any valid form; different nodes may use different
-   forms), [tb] is the octet written for TRUE, [explicit] says whether DEFAULT FALSE components
-   (criticality, dnAttributes) are written out as an explicit FALSE.  For every such peer, every message
-   of every operation, filters of any depth within the budget, any controls, and any octets following:
-   the decoder consumes exactly the message and returns the value it returns for the library's own
-   encoding (the only field that can differ is the raw value octets a paged-results control exposes,
-   which are "as received"). *)
+(* Whole messages.  [penc_msg lf tb explicit trail] (Msg/Peer.v) is a peer's encoder: [lf] chooses the
+   length octets of every TLV node from the node's content (any valid form; different nodes may use
+   different forms), [tb] is the octet written for TRUE, [explicit] says whether DEFAULT FALSE
+   components (criticality, dnAttributes) are written out as an explicit FALSE, and [trail] gives, for
+   each of the sixteen extensible SEQUENCE sites (control, SASL credentials, the protocol operations,
+   partial attribute, the filter items, the paged-results value, the envelope), a list of unrecognised
+   elements (any tag number in the APPLICATION or PRIVATE class, or a context-specific number above 11; any
+   content) appended after the
+   defined components.  For every such peer, every message of every operation, filters of any depth
+   within the budget, any controls, and any octets following: the decoder consumes exactly the message
+   and returns the value it returns for the library's own encoding (the only field that can differ is
+   the raw value octets a paged-results control exposes, which are "as received"). *)
 Theorem C04_peer_encodings_decode_alike :
-  forall lf tb explicit d m rest rest',
+  forall lf tb explicit trail d m rest rest',
   (forall c, fits c -> valid_len (lf c) (nlen c)) -> tb <> x00 ->
-  pwf_msg lf tb explicit d m -> wf_msg d m ->
+  (forall k x, In x (trail k) -> unknown_tag (fst x)) ->
+  pwf_msg lf tb explicit trail d m -> wf_msg d m ->
   exists v v',
-    unpack_message d (penc_msg lf tb explicit m ++ rest) = Ok (v, rest) /\
+    unpack_message d (penc_msg lf tb explicit trail m ++ rest) = Ok (v, rest) /\
     unpack_message d (enc_msg m ++ rest') = Ok (v', rest') /\
     erase_raw_msg v = erase_raw_msg v' /\ erase_raw_msg v = erase_raw_msg m.
 Proof. exact peer_encoding_decodes_alike. Qed.
 
 Theorem C04_peer_round_trip :
   forall lf tb explicit, (forall c, fits c -> valid_len (lf c) (nlen c)) -> tb <> x00 ->
-  forall d m rest, pwf_msg lf tb explicit d m ->
-  unpack_message d (penc_msg lf tb explicit m ++ rest) = Ok (pnorm_msg lf m, rest).
+  forall trail, (forall k x, In x (trail k) -> unknown_tag (fst x)) ->
+  forall d m rest, pwf_msg lf tb explicit trail d m ->
+  unpack_message d (penc_msg lf tb explicit trail m ++ rest) = Ok (pnorm_msg lf trail m, rest).
 Proof. exact msg_rt. Qed.
 
 (* two length styles that satisfy the hypothesis: the library's own minimal lengths, and the fixed
@@ -46,16 +52,28 @@ Proof. exact canonical_length_valid. Qed.
 Theorem C04_four_octet_lengths_are_valid : forall d, nlen d < max_len -> valid_len (lf_four d) (nlen d).
 Proof. exact lf_four_valid. Qed.
 
-(* non-vacuity: an Active-Directory-style peer (four-octet lengths, TRUE = 01, explicit FALSE) *)
+(* non-vacuity: an Active-Directory-style peer (four-octet lengths, TRUE = 01, explicit FALSE) that
+   also appends unknown elements to controls, to the search request, to filter items and to the envelope *)
+Definition ex_trail (k : nat) : list (tag * list byte) :=
+  match k with
+  | 0%nat => [(mkTag 1 11 false, [x01])]
+  | 4%nat => [(mkTag 3 5 false, []); (mkTag 1 0 true, [x04; x00])]
+  | 10%nat => [(mkTag 3 1024 false, [x78]); (mkTag 2 25 true, [x04; x01; x78])]
+  | 11%nat | 14%nat => [(mkTag 1 3 false, [x00])]
+  | _ => []
+  end.
+
 Example C04_example :
   let m := mkMsg 5 (SearchRequest [x64] 2 0 0 0 true
-                      (FAnd [FExt None (Some [x61]) [x62] false; FSub [x63] None [[x64]] None]) [])
+                      (FAnd [FExt None (Some [x61]) [x62] false; FSub [x63] None [[x64]] None; FEq [x61] [x62]]) [])
                  [CGeneric [x31; x2e; x32] false None; CPaged true 10 [] None] in
-  pwf_msg lf_four x01 true 5 m /\
-  unpack_message 5 (penc_msg lf_four x01 true m) = Ok (pnorm_msg lf_four m, []) /\
-  penc_msg lf_four x01 true m <> enc_msg m.
+  (forall k x, In x (ex_trail k) -> unknown_tag (fst x)) /\
+  pwf_msg lf_four x01 true ex_trail 5 m /\
+  unpack_message 5 (penc_msg lf_four x01 true ex_trail m) = Ok (pnorm_msg lf_four ex_trail m, []) /\
+  penc_msg lf_four x01 true ex_trail m <> enc_msg m.
 Proof.
-  cbv zeta. split; [|split].
+  cbv zeta. split; [|split; [|split]].
+  - intros k x H. do 15 (destruct k as [|k]; [cbn in H; repeat (destruct H as [<-|H]; [first [solve [cbv; auto 6] | (cbv; right; right; split; [reflexivity|discriminate])]|]); destruct H|]). destruct H.
   - split; [|split].
     + cbn. repeat split; try reflexivity; repeat constructor.
     + repeat constructor; vm_compute; reflexivity.
@@ -63,9 +81,6 @@ Proof.
   - vm_compute. reflexivity.
   - vm_compute. discriminate.
 Qed.
-
-(* Not covered by these theorems (checked on the implementation and against the extracted model only):
-   unrecognised trailing elements after the defined components of a sequence. *)
 
 Print Assumptions C04_any_length_form.
 Print Assumptions C04_peer_encodings_decode_alike.
